@@ -252,6 +252,14 @@ theorem match_soundness {A : Acr} {content search replace : Bytes} {variants : L
 example : findEnhanced A b!"let my_foo_bar = 1;" b!"foo_bar" b!"baz_qux" (variantKeys A b!"foo_bar" libStyles) libStyles =
     [⟨1, 4, 4, 14, b!"my_foo_bar", b!"my_baz_qux"⟩] := by decide +kernel
 
+/-- the "single word, single style" skip of the exact pass (commit 1fd3fe0): a camelCase / PascalCase term typed without
+    separators is two words and goes through the exact pass even with one enabled style; a true single word still skips
+    it (only compound matches are wanted then) -/
+theorem single_style_hump_term_uses_exact_pass :
+    findEnhanced A b!"foo_bar" b!"FooBar" b!"lemon_tiger" (variantKeys A b!"FooBar" [.snake]) [.snake] =
+      [⟨1, 0, 0, 7, b!"foo_bar", b!"foo_bar"⟩] ∧
+    findEnhanced A b!"foo" b!"foo" b!"lemon" (variantKeys A b!"foo" [.snake]) [.snake] = [] := by decide +kernel
+
 /-- an answer of the compound matcher implies a window of the search tokens in the identifier's tokens -/
 theorem compound_soundness {A : Acr} {ident old new : Bytes} {styles : List Style} {c : CMatch}
     (h : findCompound A ident old new styles = some c) :
